@@ -32,8 +32,12 @@ StartedOK(ev) ==
       paid == MulInt(price, gasUsed)
       prepaid == MulInt(price, ev.gas)
       reward == Reward(f, gasUsed)
-  IN /\ RawsComplete(raws, ev.n)
+  IN /\ ev.rawok /\ ev.classok           \* the copy run worked; every compiled clause kind behaved as its class says
+     /\ RawsComplete(raws, ev.n)
+     \* raws[i].in and outs[i] are OBSERVED inside the real loop (tracer): gas handed to clause i, gas left after it
      /\ \A i \in 1..Len(raws) : raws[i].in = InOf(s0, raws, 1, i) /\ RawOK(raws[i].in, raws[i])
+     /\ Len(ev.outs) = Len(raws)
+     /\ \A i \in 1..Len(raws) : ev.outs[i] = raws[i].left + RefundOf(raws[i].in, raws[i])
      /\ ev.payer = PayerOf(ev.facts)
      \* Atomic
      /\ ev.reverted = fin.reverted
@@ -46,8 +50,10 @@ StartedOK(ev) ==
      /\ fin.refunds <= fin.consumed \div 2
      \* fee and bookkeeping
      /\ ev.price = price /\ ev.paid = paid /\ ev.prepaid = prepaid /\ ev.reward = reward
-     /\ ~ev.debitNeg /\ ev.debit = paid
-     /\ ~ev.creditNeg /\ ev.credit = reward
+     \* payer debit = paid, beneficiary credit = reward; when one account is both (role coincidence) it carries paid - reward
+     /\ IF ev.pb THEN ~ev.debitNeg /\ GE(paid, reward) /\ ev.debit = Sub(paid, reward)
+        ELSE /\ ~ev.debitNeg /\ ev.debit = paid
+             /\ ~ev.creditNeg /\ ev.credit = reward
      \* energy contract totals: sub grows by prepaid, add by returned + reward (clause-level energy transfers add the
      \* same amount to both):  subd + returned + reward = addd + prepaid
      /\ ~ev.subdNeg /\ ~ev.adddNeg
